@@ -61,6 +61,12 @@ def make_case(index, rng, tier):
         c = rng.choice(clients)
         c["t"] = h["t"]
         h["tick"] = None
+    if fam == "full":
+        # some request heads arrive in two parts: the worker has "started reading" a request long before it is complete
+        for c in clients:
+            if rng.randrange(4) == 0:
+                c["dur"] = 0
+                c["split"] = round(rng.uniform(0.2, 1.2), 2)
     workers = rng.randrange(1, 4)
     fine, fine_long = rng.choice([0, 0, 2, 3]), rng.randrange(2) == 0
     load_delay = rng.choice([0, 0, 0.3, 1.0])
@@ -76,6 +82,7 @@ def make_case(index, rng, tier):
         load_delay = rng.choice([0.3, 0.6, 1.0])
         directed = True
     return {"family": fam, "app_load_delay": load_delay, "fine_workers_only": directed, "kind": kind, "workers": workers, "hups": hups, "clients": clients,
+            "wconn": rng.choice([1, 2, 10]) if kind in ("gevent", "eventlet") else 10,
             "fine": fine, "fine_long": fine_long, "bind": rng.choice(["127.0.0.1:8000", "127.0.0.1:8000", "localhost:8000"]),
             "graceful_timeout": rng.choice([2, 3, 4]), "threads": rng.randrange(1, 3),
             "buggify": {"pyticks": rng.randrange(3) == 0, "fork_child_first": rng.randrange(2) == 0, "spurious_select": rng.randrange(3) == 0,
@@ -99,7 +106,7 @@ def run(case, choices):
            "pidfile": "/run/g.pid"}
     w = master.World(sim, cfg)
     if fam == "full":
-        w.cfgsrc.update({"threads": case["threads"], "keepalive": 0, "worker_connections": 10})
+        w.cfgsrc.update({"threads": case["threads"], "keepalive": 0, "worker_connections": case.get("wconn", 10)})
         w.use_real_workers(case["kind"])
         w.app_load_delay = case.get("app_load_delay", 0)
     m = w.start_master()
@@ -157,6 +164,11 @@ def run(case, choices):
             reqs = "GET /r%d HTTP/1.1\r\nHost: h\r\nX-Dur: %s\r\n\r\n" % (i, c["dur"])
         else:
             reqs = "GET %s HTTP/1.1\r\nHost: h\r\nConnection: close\r\n\r\n" % ("/sleep/%s" % c["dur"] if c["dur"] else "/a")
+        if c.get("split"):
+            cut = 1 + (i * 7) % (len(reqs) - 2)
+            cl.append(w.add_client("c%d" % i, [["wait", c["t"]], ["connect"], ["send", reqs[:cut]], ["wait", c["split"]], ["send", reqs[cut:]],
+                                               ["recv", 40.0], ["await-eof", 5.0]]))
+            continue
         cl.append(w.add_client("c%d" % i, [["wait", c["t"]], ["connect"], ["send", reqs], ["recv", 40.0], ["await-eof", 5.0]]))
     t_last = max(h["t"] for h in case["hups"]) + 1.5
     horizon = t_last + gt + 5.0
